@@ -1,7 +1,7 @@
 (* C08 - property theorems.  Only statements closed by [exact]; proofs live in Delayed/*.v. *)
 From Coq Require Import List ZArith String Bool Arith.
 Import ListNotations.
-From NV Require Import Delayed.Model Delayed.Spec Delayed.Tracked Delayed.Rel Delayed.Main Delayed.Refuted Delayed.ReachTable.
+From NV Require Import Delayed.Model Delayed.Spec Delayed.Tracked Delayed.Rel Delayed.Main Delayed.Refuted Delayed.ReachTable Delayed.MergeTracked.
 
 (* pending_tracked, one statement per primitive *)
 Theorem C08_pending_tracked_at : forall es p i,
@@ -60,6 +60,14 @@ Proof. exact record_lazy_app_tracked. Qed.
 Theorem C08_pending_tracked_insert : forall k x fs v,
   prim_record_insert k x fs = Ok v -> view_rec v = view_rec (VRec fs) ++ [(k, x)].
 Proof. exact insert_tracked. Qed.
+
+Theorem C08_pending_tracked_merge : forall m1 m2 fs, prim_record_merge m1 m2 = VRec fs ->
+  Forall (merged_from m1 m2) fs.
+Proof. exact merge_tracked. Qed.
+
+Theorem C08_pending_tracked_remove : forall k fs fs', prim_record_remove k fs = Ok (VRec fs') ->
+  forall f, In f fs' -> In f fs.
+Proof. exact remove_tracked. Qed.
 
 Theorem C08_pending_tracked_pipeline : forall ts es p v,
   run_pipeline ts (VArr es p) = Ok v ->
